@@ -41,8 +41,8 @@ def sym_entry(kind, loc, ex):
         f["mode"] = (S.S_IFCHR if kind == "chr" else S.S_IFBLK) | 0o660   # S_ISCHR needs a concrete mode
         f["major"], f["minor"] = KInt.fresh("major"), KInt.fresh("minor")
     else:
-        f["mode"] = KInt.fresh("mode")
-        ex.assume(f["mode"] >= 0)
+        from pyvc.sym import KBV
+        f["mode"] = KBV.fresh("mode")   # a bit vector: masks applied to it are modelled (a narrower mask than 0o7777 loses set-id / sticky bits)
     flags = {"is_reg": kind == "file", "is_dir": kind == "dir", "is_sym": kind == "sym", "is_fifo": kind == "fifo", "is_dev": kind in ("chr", "blk")}
     f.update(flags)
     if kind == "sym":
@@ -186,6 +186,16 @@ def enum_tarballs(seed):
                     os.symlink("real", os.path.join(src, "ln1"))
                 if not os.path.lexists(os.path.join(src, "ln2")):
                     os.symlink("ln1", os.path.join(src, "ln2"))
+            # set-id and sticky bits (applied last: a chown after chmod would clear them)
+            for dp, dn, fn in os.walk(src):
+                for n_ in fn:
+                    fp = os.path.join(dp, n_)
+                    if os.path.isfile(fp) and not os.path.islink(fp) and rnd.random() < .4:
+                        os.chmod(fp, rnd.choice((0o4711, 0o2755, 0o6755, 0o1644)))
+                for n_ in dn:
+                    fp = os.path.join(dp, n_)
+                    if not os.path.islink(fp) and rnd.random() < .3:
+                        os.chmod(fp, rnd.choice((0o1777, 0o2775)))
             cset = contents.contentsSet(livefs.scan(src, offset=src))
             for comp in ("bz2", None):
                 cases += 1
